@@ -599,6 +599,61 @@ func k4(r *rng.R, i int, o *out.W) {
 	o.Emit(out.Case{I: i, Fam: fam, Coq: fmt.Sprintf("K4 (mkK4 %s %s %s)", arc, cq.F(off), cq.Floats(ds)), Desc: desc})
 }
 
+// k6: a line followed by a rotated elliptical arc; the pattern's last boundary on the subpath falls on the line, so the arc lies
+// wholly inside the last dash and must come back as it is stored
+func k6(r *rng.R, i int, o *out.W) {
+	sx, sy := float64(r.Range(-40, 40))/4, float64(r.Range(-40, 40))/4
+	ll := float64(r.Range(16, 80)) / 4
+	a := gen.Arc(r, sx+ll, sy, 0)
+	p := &canvas.Path{}
+	p.MoveTo(sx, sy)
+	p.LineTo(sx+ll, sy)
+	p.ArcTo(a.Rx, a.Ry, a.RotDeg, a.Large, a.Sweep, a.Ex, a.Ey)
+	d := p.Data()
+	if len(d) != 16 || d[8] != canvas.ArcToCmd {
+		return
+	}
+	// dash, gap, then a dash that outlasts the subpath: the last boundary (3/4 or 1/2 of the line) is on the line
+	ds := []float64{ll / 2, ll / 4, 65536, 1}
+	if r.Bool() {
+		ds = []float64{ll / 4, ll / 4, 65536, 1}
+	}
+	off := 0.0
+	var q *canvas.Path
+	msg := safe(func() { q = p.Dash(off, append([]float64(nil), ds...)...) })
+	cells := func(x0, y0 float64, rec []float64) string { // start point, rx, ry, rot, flags, end point
+		return cq.Floats([]float64{x0, y0, rec[1], rec[2], rec[3], rec[4], rec[5], rec[6]})
+	}
+	var acts []string
+	desc := map[string]interface{}{"kind": "K6", "path": p.String(), "offset": off, "dashes": ds, "panic": msg, "go": nil, "length": 0.0}
+	if msg == "" {
+		desc["go"] = q.String()
+		if _, err := pd.Decode(q.Data()); err != nil {
+			msg = "malformed output"
+		}
+		qd := q.Data()
+		for k := 0; k < len(qd); {
+			n := 4
+			switch qd[k] {
+			case canvas.QuadToCmd:
+				n = 6
+			case canvas.CubeToCmd, canvas.ArcToCmd:
+				n = 8
+			}
+			if qd[k] == canvas.ArcToCmd && k >= 3 {
+				acts = append(acts, cells(qd[k-3], qd[k-2], qd[k:k+8]))
+			}
+			k += n
+		}
+	}
+	term := fmt.Sprintf("K6 (mkK6 %s %s %s)", cells(sx+ll, sy, d[8:16]), cq.List(acts), cq.Bool(msg != ""))
+	fam := "k6:line+arc"
+	if a.SnN != 0 && a.CsN != 0 && a.Rx != a.Ry {
+		fam = "k6:line+rotated-arc"
+	}
+	o.Emit(out.Case{I: i, Fam: fam, Coq: term, Desc: desc})
+}
+
 func main() {
 	seed := flag.Uint64("seed", 1, "")
 	n := flag.Int("n", 100, "")
@@ -613,7 +668,9 @@ func main() {
 			continue
 		}
 		r := root.Fork(uint64(i))
-		if i%16 == 13 {
+		if i%32 == 21 {
+			k6(r, i, o)
+		} else if i%16 == 13 {
 			k4(r, i, o)
 		} else if i%16 == 5 {
 			k3(r, i, o)
